@@ -67,6 +67,7 @@ func NewRunner(rec *Rec, p *Program, rp RunParams) *Runner {
 		r.FS = crashfs.New()
 		r.S = NewSess(rec, cfg, r.FS, r.Dir, p.ID, Ev{"prog": p, "run": rp})
 		r.S.AfterInjected = r.afterInjected
+		r.S.Hold = rp.Hold
 		if mode != "seq" {
 			r.FS.Hook = r.hook
 		}
@@ -86,6 +87,7 @@ func NewRunnerOn(rec *Rec, p *Program, dir string, rp RunParams) *Runner {
 		ReadEvery: true, Probe: rp.Probe, FullEvery: rp.FullEvery, Alt: rp.Alt}
 	r.S = NewSess(rec, p.Cfg, RootFS(p.Cfg.FS), dir, p.ID, Ev{"prog": p, "run": rp})
 	r.S.AfterInjected = r.afterInjected
+	r.S.Hold = rp.Hold
 	return r
 }
 
@@ -373,6 +375,8 @@ func (r *Runner) step(o Op) (died bool, err error) {
 		r.closedWin = false
 	case "open":
 		err = r.S.Open()
+	case "tear":
+		err = r.Tear(Expand(o.V, o.VL))
 	default:
 		err = r.S.Do(o)
 	}
@@ -461,6 +465,56 @@ func isMutating(op string) bool {
 		return true
 	}
 	return false
+}
+
+// CloseAndDecode ends a sequential run: Close (recorded), then every segment file is read by the
+// independent decoder of the documented format and replayed in sequence order (C18).
+func (r *Runner) CloseAndDecode() {
+	if r.S.DB == nil || r.Mode != "seq" {
+		return
+	}
+	if err := r.S.Do(Op{Op: "close"}); err != nil {
+		return
+	}
+	r.S.ObserveHeld()
+	r.S.DB = nil
+	root, dir := r.S.Root, r.S.Dir
+	type sg struct {
+		seq  int
+		recs []DRec
+	}
+	var segs []sg
+	for _, n := range ListDir(root, dir) {
+		_, sq, ok := ParseSegmentName(n)
+		if !ok {
+			continue
+		}
+		raw, err := ReadWhole(root, filepath.Join(dir, n))
+		if err != nil {
+			r.S.R.Emit(Ev{"e": "fault", "what": "reading " + n + ": " + err.Error()})
+			return
+		}
+		recs, end, err := DecodeSegment(raw)
+		if err != nil || end != len(raw) {
+			r.S.R.Emit(Ev{"e": "fault", "what": fmt.Sprintf("independent decoder rejects %s written by the current code: accepted %d of %d bytes, err=%v", n, end, len(raw), err)})
+			return
+		}
+		segs = append(segs, sg{sq, recs})
+	}
+	sort.Slice(segs, func(i, j int) bool { return segs[i].seq < segs[j].seq })
+	kv := map[string]string{}
+	n := 0
+	for _, s := range segs {
+		for _, rc := range s.recs {
+			n++
+			if rc.Del {
+				delete(kv, Token(rc.Key))
+			} else {
+				kv[Token(rc.Key)] = Token(rc.Val)
+			}
+		}
+	}
+	r.S.R.Emit(Ev{"e": "decoded", "kv": kv, "records": n, "segments": len(segs)})
 }
 
 // Finish closes the database quietly (no events).
